@@ -1,4 +1,5 @@
 import PhyModel.Proofs.TopoProofs
+import Mathlib.Algebra.Order.Ring.Unbundled.Rat
 /-! # C11 — trace summaries pick the true maximum and count topologies exactly
 
 Property theorems only; helper lemmas are in `Proofs/TraceProofs.lean`, `Proofs/TopoProofs.lean`.
@@ -46,6 +47,14 @@ theorem mapPick_max (tr : Trace κ σ) (hwf : WF tr) (hne : entries tr ≠ []) :
   intro e' he'
   obtain ⟨r, hr, _, hs⟩ := mem_entries_iff.mp he'
   rw [← hs]; exact h3 r hr
+
+omit [DecidableEq κ] in
+/-- If ties at the maximum were broken differently (`>=` instead of `>`, another scan order), the command
+would report one of `mapCandidates`: exactly the entries whose score is the maximum; the model's own pick
+is one of them. -/
+theorem mapCandidates_spec (tr : Trace κ σ) (e : κ × σ) :
+    e ∈ mapCandidates tr ↔ e ∈ entries tr ∧ ∀ e' ∈ entries tr, e'.2 ≤ e.2 := by
+  simp [mapCandidates, List.mem_filter, List.all_eq_true]
 
 omit [DecidableEq κ] [LinearOrder σ] in
 private theorem mem_entries_perm {tr tr' : Trace κ σ} (hp : tr.Perm tr') (e : κ × σ) :
@@ -256,7 +265,7 @@ theorem clampTop_pos (mx : Nat) (n : Int) (v : Nat) (h : clampTop mx n = some v)
 def ex : Trace Nat Int := [(1, [(7, -3), (8, -2), (7, -5)]), (0, [(8, -4), (9, -2), (7, -1)])]
 
 example : WF ex ∧ entries ex ≠ [] := by unfold WF; decide
-example : mapPick ex = some (7, -1) := by decide
+example : mapPick ex = some (7, -1) ∧ mapCandidates ex = [(7, -1)] := by decide
 example : (mapPick [ex[1], ex[0]]).map Prod.snd = some (-1) ∧ [ex[0], ex[1]].Perm [ex[1], ex[0]] :=
   ⟨by decide, List.Perm.swap _ _ _⟩
 example : (topoTable ex).map (fun w => (w.key, w.count, w.score, w.chain, w.iter)) =
@@ -266,5 +275,23 @@ example : occurrences ex 7 = 3 ∧ occurrences ex 8 = 2 ∧ occurrences ex 5 = 0
 example : (archive (some 2) (topoTable ex)).map (fun p => (p.1, p.2.key)) = [(0, 7), (1, 8)] ∧
     ((topoTable ex).drop 2).map (·.key) = [9] := by decide
 example : clampTop 100 (-3) = some 1 ∧ clampTop 100 5 = some 5 ∧ clampTop 100 100 = none := by decide
+
+/-! ## the driver's instance
+
+The driver runs the model with `TreeKey` keys and `Rat` scores using core Lean's `<` on `Rat`; the theorems
+above are stated for any `LinearOrder`.  These examples check that the instantiation at `Rat` is literally
+the function the driver executes (the two `Decidable` instances agree definitionally). -/
+
+/-- exactly what `Drv/C11.lean` computes (elaborated with core instances only, as in the driver) -/
+def drvMapPick (tr : Trace TreeKey Rat) : Option (TreeKey × Rat) :=
+  @mapPick TreeKey Rat Rat.instLT Rat.instDecidableLt tr
+def drvTable (tr : Trace TreeKey Rat) : List (Row TreeKey Rat) :=
+  @topoTable TreeKey Rat Rat.instLT Rat.instDecidableLt inferInstance tr
+
+example (tr : Trace TreeKey Rat) (hwf : WF tr) (hne : entries tr ≠ []) :
+    ∃ e, drvMapPick tr = some e ∧ e ∈ entries tr ∧ ∀ e' ∈ entries tr, e'.2 ≤ e.2 := mapPick_max tr hwf hne
+example (tr : Trace TreeKey Rat) : (drvTable tr).Pairwise (fun a b => b.score ≤ a.score) := topo_sorted tr
+example (tr : Trace TreeKey Rat) (w : Row TreeKey Rat) (hw : w ∈ drvTable tr) :
+    w.count = occurrences tr w.key := topo_count_correct tr w hw
 
 end PhyModel.Props.C11
